@@ -213,7 +213,74 @@ type c12Case struct {
 	ZeroAt int    `json:"zero_at"`
 }
 
+// loopAll: the same stream through the connection's read loop (connection.go): the frames arrive on the inbound
+// channel, which the loop closes when the stream ends; then back out through the write loop, which must put exactly
+// these bytes on the wire, in order, and return when its channel is closed.
+func loopAll(data []byte, cuts []int, mode, zeroAt int) (res frameResult, written []byte, panicked string) {
+	defer func() {
+		if r := recover(); r != nil {
+			panicked = fmt.Sprint(r)
+		}
+	}()
+	rd := &partReader{data: data, cuts: cuts, mode: mode, zeroAt: zeroAt}
+	in := make(chan quickfix.VerifFixIn, len(data)+16)
+	quickfix.VerifReadLoop(rd, in, nullLog{})
+	closed := false
+	for !closed {
+		select {
+		case m, ok := <-in:
+			if !ok {
+				closed = true
+				break
+			}
+			res.frames = append(res.frames, append([]byte{}, quickfix.VerifInBytes(m)...))
+		default:
+			res.err = "(inbound channel left open by the read loop)"
+			closed = true
+		}
+	}
+	out := make(chan []byte, len(res.frames)+1)
+	for _, f := range res.frames {
+		out <- f
+	}
+	close(out)
+	var w bytes.Buffer
+	quickfix.VerifWriteLoop(&w, out, nullLog{})
+	written = w.Bytes()
+	return
+}
+
+type nullLog struct{}
+
+func (nullLog) OnIncoming([]byte)               {}
+func (nullLog) OnOutgoing([]byte)               {}
+func (nullLog) OnEvent(string)                  {}
+func (nullLog) OnEventf(string, ...interface{}) {}
+
 func c12Run(data []byte, expected [][]byte, cuts []int, mode, zeroAt int, ref *frameResult) (rule, what string) {
+	if mode >= 3 {
+		res, written, pan := loopAll(data, cuts, mode-3, zeroAt)
+		if pan != "" {
+			return "C12/panic", "read/write loop: " + pan
+		}
+		if res.err != "" {
+			return "C12/L-inbound-channel-not-closed", res.err
+		}
+		if len(res.frames) != len(ref.frames) {
+			return "C12/L-read-loop-frames", fmt.Sprintf("cuts %v mode %d: the read loop delivered %d frames, the parser frames %d", cuts, mode, len(res.frames), len(ref.frames))
+		}
+		var all []byte
+		for i := range res.frames {
+			if !bytes.Equal(res.frames[i], ref.frames[i]) {
+				return "C12/L-read-loop-frames", fmt.Sprintf("cuts %v: frame %d delivered by the read loop is %q, expected %q", cuts, i, fixscan.Pretty(res.frames[i]), fixscan.Pretty(ref.frames[i]))
+			}
+			all = append(all, res.frames[i]...)
+		}
+		if !bytes.Equal(written, all) {
+			return "C12/L-write-loop-bytes", fmt.Sprintf("the write loop put %d bytes on the wire for %d bytes of frames", len(written), len(all))
+		}
+		return "", ""
+	}
 	res, pan := frameAll(data, cuts, mode, zeroAt)
 	if pan != "" {
 		return "C12/panic", pan
@@ -316,7 +383,7 @@ func runC12(c *core.Ctx) {
 		c.SetDeadline(40 * time.Minute)
 	}
 	c.SetRule("for each of ~22 byte streams (well-formed messages incl. look-alike trailers inside data fields, garbage separators, messages of 4000-9000 bytes around the 4096-byte buffer, line noise longer than the buffer between and in front of messages, bad/zero/huge/negative BodyLength, truncated tails): every partition with <= 2 cut points (all positions for streams up to 400 bytes, positions around buffer multiples/field markers for longer ones; thorough: <= 3 cut points on short streams), the all-1-byte partition, every fixed chunk size, x 3 reader behaviours; differential oracle against the single-read result plus exact expected frames for well-formed streams")
-	c.Assume("terminal error compared by text", "readers: data then (0,EOF); last chunk with EOF; one (0,nil) read")
+	c.Assume("terminal error compared by text", "readers: data then (0,EOF); last chunk with EOF; one (0,nil) read", "connection.go: the read loop must deliver the parser's frames on the inbound channel and close it; the write loop must write the bytes handed to it in order (short streams, <=1 cut and fixed chunk sizes)")
 	streams := c12Streams()
 	type job struct {
 		s    c12Stream
@@ -369,6 +436,11 @@ func runC12(c *core.Ctx) {
 					zero = cuts[0]
 				}
 				jobs <- job{s, cuts, mode, zero}
+			}
+			// through the connection's read loop and back through its write loop (streams up to 2.5 kB)
+			if n <= 2500 && len(cuts) <= 1 || len(cuts) > 2 {
+				jobs <- job{s, cuts, 3, 0}
+				jobs <- job{s, cuts, 4, 0}
 			}
 		}
 		emit(nil)
